@@ -26,6 +26,7 @@ type LoopContract struct {
 	Assigns    []*Clause
 	Decreases  *Clause
 	HasAssigns bool
+	Uses       []*Clause // lemma instances assumed at the loop head (after the invariant) and on the back edge (before the invariant is re-proved)
 }
 
 type FuncContract struct {
@@ -40,6 +41,8 @@ type FuncContract struct {
 	Requires       []*Clause
 	Ensures        []*Clause
 	Asserts        []*Clause // proved at every return (locals visible), then assumed for the ensures; not exported to callers
+	Derives        []*Clause // two-state lemmas over the contract: proved from requires + ensures + frame alone (not from the body), exported to callers like ensures
+	DeriveUses     []*Clause // use-clauses of the derivation
 	Assigns        []*Clause
 	HasAssigns     bool
 	Decreases      *Clause
@@ -422,6 +425,18 @@ func (cs *ContractSet) parseFile(path string) error {
 				return err
 			}
 			cur.Ensures = append(cur.Ensures, c)
+		case "derives":
+			c, err := mk("derives")
+			if err != nil {
+				return err
+			}
+			cur.Derives = append(cur.Derives, c)
+		case "deriveuse":
+			c, err := mk("use")
+			if err != nil {
+				return err
+			}
+			cur.DeriveUses = append(cur.DeriveUses, c)
 		case "assert":
 			c, err := mk("assert")
 			if err != nil {
@@ -434,7 +449,11 @@ func (cs *ContractSet) parseFile(path string) error {
 			if err != nil {
 				return err
 			}
-			cur.Asserts = append(cur.Asserts, c)
+			if curLoop != nil {
+				curLoop.Uses = append(curLoop.Uses, c)
+			} else {
+				cur.Asserts = append(cur.Asserts, c)
+			}
 		case "assigns":
 			c := &Clause{Kind: "assigns", Src: rest, Props: append([]string(nil), props...), Line: where}
 			for _, part := range splitTop(rest, ',') {
